@@ -205,7 +205,7 @@ Proof. intros Hc Hk r. unfold after, k_step. rewrite Hc. apply Hk. Qed.
 
 Lemma client_populate_own pk : pop_own (client_populate pk).
 Proof.
-  intros dst old. unfold client_populate, skip. destruct old as [o|].
+  intros dst old. unfold client_populate, skip, try. destruct old as [o|].
   - cbn [bind]. apply allc_Call; [reflexivity|]. intros r. destruct pk; allc_auto.
   - destruct pk; allc_auto.
 Qed.
